@@ -77,6 +77,8 @@ pub struct Oracle {
     /// certificates in first-seen order
     pub certs: Vec<CertificateRow>,
     cert_seen_step: BTreeMap<String, usize>,
+    /// genesis verification key in the operator's configuration when the certificate was sealed
+    cert_genesis_vk: BTreeMap<String, Option<String>>,
     verified: BTreeSet<String>,
     /// single-signature rows seen: (open message id, party) -> (signature, producer party if known)
     rows: BTreeMap<(String, String), String>,
@@ -114,6 +116,7 @@ impl Oracle {
             known_hits: vec![],
             certs: vec![],
             cert_seen_step: BTreeMap::new(),
+            cert_genesis_vk: BTreeMap::new(),
             verified: BTreeSet::new(),
             rows: BTreeMap::new(),
             open_messages: BTreeMap::new(),
@@ -315,6 +318,7 @@ impl Oracle {
         let new: Vec<CertificateRow> = certs.iter().filter(|c| !known.contains(&c.hash)).cloned().collect();
         for c in &new {
             self.cert_seen_step.insert(c.hash.clone(), step);
+            self.cert_genesis_vk.insert(c.hash.clone(), w.agg.settings.genesis_vk_hex.clone());
             self.certs.push(c.clone());
         }
         if self.is("C14") || self.is("C15") || self.is("C16") || self.is("C02") || self.is("C06") {
@@ -536,26 +540,33 @@ impl Oracle {
         }
         let routes = w.agg.inner.as_ref().unwrap().routes.clone();
         let requester: Arc<dyn CertificateAggregatorRequest> = Arc::new(RouteRequester { routes });
-        let genesis_vk = mithril_common::crypto_helper::GenesisSigner::create_deterministic_signer()
+        // a client is configured with the genesis verification key the operator publishes; each
+        // certificate is judged under the key that was in the aggregator's configuration when it
+        // was sealed (an operator who later puts another key in the configuration does not make
+        // the aggregator responsible for what it sealed before)
+        let default_vk = mithril_common::crypto_helper::GenesisSigner::create_deterministic_signer()
             .create_verifier()
             .to_ed25519_verification_key()
             .to_json_hex()
             .expect("genesis vk");
-        let verifier = match MithrilCertificateVerifier::new(
-            requester.clone(),
-            &genesis_vk,
-            FeedbackSender::new(&[]),
-            None,
-            crate::agg::logger(),
-        ) {
-            Ok(v) => Arc::new(v),
-            Err(e) => {
-                self.report(step, "harness", format!("cannot build client verifier: {e:#}"));
-                return;
+        let mut clients: BTreeMap<String, CertificateClient> = BTreeMap::new();
+        for c in &todo {
+            let vk = self.cert_genesis_vk.get(&c.hash).cloned().flatten().unwrap_or_else(|| default_vk.clone());
+            if clients.contains_key(&vk) {
+                continue;
             }
-        };
-        let client = CertificateClient::new(requester, verifier, crate::agg::logger());
+            let verifier = match MithrilCertificateVerifier::new(requester.clone(), &vk, FeedbackSender::new(&[]), None, crate::agg::logger()) {
+                Ok(v) => Arc::new(v),
+                Err(e) => {
+                    self.report(step, "harness", format!("cannot build client verifier: {e:#}"));
+                    return;
+                }
+            };
+            clients.insert(vk, CertificateClient::new(requester.clone(), verifier, crate::agg::logger()));
+        }
         for c in todo {
+            let vk = self.cert_genesis_vk.get(&c.hash).cloned().flatten().unwrap_or_else(|| default_vk.clone());
+            let client = &clients[&vk];
             let res = w.agg.block_on(client.verify_chain(&c.hash));
             self.probe("client_chain_verifications");
             match res {
@@ -799,6 +810,54 @@ impl Oracle {
                     self.report(step, "signer-slot-depends-on-order", format!("epoch {e}: party {party} gets signer slot {:?} or {:?} depending on the order of the signer list", slots[0], slots[1]));
                 }
                 self.probe("c06_slot_probes");
+            }
+            // (b'') a (key, stake) pair that is not in the registration has no slot: the party's own
+            // key material with another stake (what a node with a lagging or re-read stake
+            // distribution holds) is either refused, or - if it is given a signer - whatever that
+            // signer produces verifies under the registered pair
+            for party in 0..w.parties.len() {
+                let Some(key) = Self::key_in_force(w, party, e - 1, step).cloned() else { continue };
+                let Ok(mut v) = serde_json::to_value(&key.initializer) else { continue };
+                fn bump_stake(v: &mut serde_json::Value) -> bool {
+                    match v {
+                        serde_json::Value::Object(m) => {
+                            let mut done = false;
+                            for (k, x) in m.iter_mut() {
+                                if k == "stake" && x.is_u64() {
+                                    *x = serde_json::json!(x.as_u64().unwrap() * 50 + 7);
+                                    done = true;
+                                } else {
+                                    done |= bump_stake(x);
+                                }
+                            }
+                            done
+                        }
+                        serde_json::Value::Array(a) => a.iter_mut().any(bump_stake),
+                        _ => false,
+                    }
+                }
+                if !bump_stake(&mut v) {
+                    self.probe("c06_other_stake_probe_not_applicable");
+                    continue;
+                }
+                let Ok(altered) = serde_json::from_value::<mithril_common::crypto_helper::ProtocolInitializer>(v) else { continue };
+                self.probe("c06_other_stake_probes");
+                let Ok(builder) = SignerBuilder::new(&current, &params) else { continue };
+                if let Ok(signer) = builder.restore_signer_from_initializer(key.signer.party_id.clone(), altered) {
+                    self.probe("c06_other_stake_given_a_signer");
+                    for n in 0..4 {
+                        let message = format!("c06-other-stake-probe-{n}");
+                        if let Ok(Some(sig)) = signer.sign(&message) {
+                            let hex: String = sig.signature.clone().try_into().unwrap_or_default();
+                            if let Err(why) = Self::verify_under_key(&params, &current, &key.signer.party_id, &hex, &[], &message) {
+                                self.report(step, "signer-slot-for-unregistered-pair", format!(
+                                    "epoch {e}: party {party}'s key with a stake other than the registered one is given signer slot {} and signs, but what it signs does not verify under the registered (key, stake) pair: {}",
+                                    sig.to_protocol_signature().signer_index, crate::world::first_line(&why)));
+                                break;
+                            }
+                        }
+                    }
+                }
             }
             // (c) distinct registration sets give distinct keys (next epoch's set vs this one's)
             if !next.is_empty()
